@@ -85,6 +85,9 @@ def run_case(cs, ctx):
     import datetime as _dtmod
     real_dt = _dtmod.datetime
     use_limit = (not bf) and rng.random() < 0.3
+    solve_kw_mode = rng.choice([0, 0, 0, 0, 1, 2, 3])
+    if solve_kw_mode:
+        ctx.cnt('histories_with_solve_keyword_arguments')
     limit = 50.0 if use_limit else None
 
     class JumpDT(real_dt):
@@ -190,10 +193,22 @@ def run_case(cs, ctx):
                 before = len(TAP.events)
                 TAP.enabled = True
                 try:
-                    if limit is None:
-                        s.solve()
-                    else:
-                        s.solve(timeLimit=limit)
+                    kw = {}
+                    if limit is not None:
+                        kw['timeLimit'] = limit
+                    if solve_kw_mode == 1:
+                        kw.update(threads=1)
+                    elif solve_kw_mode == 2:
+                        kw.update(write=True)          # writes model.lp into the current directory
+                    elif solve_kw_mode == 3 and nsolve >= 1:
+                        kw.update(threads=2, write=True)   # the keyword arguments change between the solves
+                    import os as _os
+                    _cwd = _os.getcwd()
+                    try:
+                        _os.chdir(ctx.workdir)
+                        s.solve(**kw)
+                    finally:
+                        _os.chdir(_cwd)
                 except Exception as e:
                     log.append(('solve', 'raised ' + type(e).__name__))
                     pending = None
